@@ -135,3 +135,151 @@ func vMatcherHarness(bt bool) {
 
 func VH_M1_hashTable() { vUnwind(40); vMatcherHarness(false) }
 func VH_M2_binTree()   { vUnwind(40); vMatcherHarness(true) }
+
+// ---- M3 (C17): redundancy inside the window is found ------------------------
+
+// vUFRoller: two extreme hash functions of the last n bytes - the constant one
+// (every word collides with every other) and the ideal one for a given word
+// (nothing collides with it). The real CyclicPoly lies in between and depends
+// only on the last n bytes (lemma M4).
+type vUFRoller struct {
+	n    int
+	last uint64
+	k    int
+	bits uint64 // 0: constant hash (every word collides); 1: ideal hash for the word `word` (nothing collides with it)
+	word uint64
+}
+
+func (r *vUFRoller) Len() int { return r.n }
+func (r *vUFRoller) RollByte(x byte) uint64 {
+	r.last = r.last<<8 | uint64(x)
+	if r.n < 8 {
+		r.last &= 1<<(8*uint(r.n)) - 1
+	}
+	if r.k < r.n {
+		r.k++
+	}
+	if r.bits == 0 {
+		return 0
+	}
+	if r.k == r.n && r.last == r.word {
+		return 1
+	}
+	return 0
+}
+
+// X.Y.X: X = 4 arbitrary bytes >= 0x80, Y = 5..6 fixed distinct small bytes, so
+// that the second X lies 9..10 bytes after the first one - beyond the eight
+// short distances that are always tried - and occurs nowhere else.
+func vXYX(bt bool) {
+	var m matcher
+	if bt {
+		t, _ := newBinTree(16)
+		m = t
+	} else {
+		bits := uint64(vConcretize(int(vNondetU8("hashbits")) % 2))
+		newRoller = func(n int) hash.Roller { return &vUFRoller{n: n, bits: bits} }
+		t, _ := newHashTable(16, 4)
+		m = t
+	}
+	d, err := newEncoderDict(16, 12, m)
+	vAssert(err == nil, "dictionary constructed")
+	x := vNondetBytes("x", 4)
+	vAssume(x[0] >= 0x80 && x[1] >= 0x80 && x[2] >= 0x80 && x[3] >= 0x80)
+	if ht, ok := m.(*hashTable); ok {
+		w := uint64(x[0])<<24 | uint64(x[1])<<16 | uint64(x[2])<<8 | uint64(x[3])
+		ht.wr.(*vUFRoller).word = w
+		ht.hr.(*vUFRoller).word = w
+	}
+	ylen := 5 + vConcretize(int(vNondetU8("ylen"))%2)
+	pre := vConcretize(int(vNondetU8("pre")) % 2) // bytes before the first X
+	var hist []byte
+	hist = append(hist, []byte{0x11, 0x12}[:pre]...)
+	hist = append(hist, x...)
+	hist = append(hist, []byte{1, 2, 3, 4, 5, 6}[:ylen]...)
+	k, _ := d.Write(hist)
+	vAssert(k == len(hist), "history fits")
+	d.Discard(len(hist)) // the encoder has coded these bytes; the matcher has seen them
+	la := append([]byte{}, x...)
+	la = append(la, 0x7f)
+	k, _ = d.Write(la)
+	vAssert(k == len(la), "look-ahead fits")
+	rep0 := vNondetU32("rep0")
+	op := m.NextOp([4]uint32{rep0, 0, 0, 0})
+	mt, isMatch := op.(match)
+	vAssert(isMatch, "a repetition 9-10 bytes back inside the dictionary yields a match, not a literal")
+	vAssert(mt.n >= 4, "the match covers the whole repeated word")
+	vAssert(mt.distance == int64(4+ylen), "at the distance of the earlier occurrence")
+}
+
+func VH_M3_xyx_ht() { vUnwind(40); vXYX(false) }
+func VH_M3_xyx_bt() { vUnwind(40); vXYX(true) }
+
+// A run: look-ahead of k equal bytes preceded by the same byte -> (dist 1, n = k).
+func VH_M3_run() {
+	vUnwind(40)
+	bt := vNondetBool("binTree")
+	var m matcher
+	if bt {
+		t, _ := newBinTree(16)
+		m = t
+	} else {
+		newRoller = func(n int) hash.Roller { return &vUFRoller{n: n, bits: 0} }
+		t, _ := newHashTable(16, 4)
+		m = t
+	}
+	d, _ := newEncoderDict(16, 12, m)
+	b := vNondetU8("b")
+	h := 1 + vConcretize(int(vNondetU8("hist"))%5)
+	k := 2 + vConcretize(int(vNondetU8("k"))%7)
+	buf := make([]byte, h+k)
+	for i := range buf {
+		buf[i] = b
+	}
+	d.Write(buf[:h])
+	d.Discard(h)
+	d.Write(buf[h:])
+	op := m.NextOp([4]uint32{vNondetU32("rep0"), 0, 0, 0})
+	mt, isMatch := op.(match)
+	vAssert(isMatch && mt.n == k, "a run is covered by one match of the full look-ahead length")
+	vAssert(mt.distance >= 1 && mt.distance <= int64(h), "at a distance inside the run")
+}
+
+// ---- M4: the rolling hash depends only on the last n bytes -------------------
+
+func VH_M4_roll() {
+	n := 4
+	la := vConcretize(int(vNondetU8("la")) % 4)
+	lb := vConcretize(int(vNondetU8("lb")) % 4)
+	pa := vNondetBytes("pa", la)
+	pb := vNondetBytes("pb", lb)
+	s := vNondetBytes("s", n)
+	ra, rb := hash.NewCyclicPoly(n), hash.NewCyclicPoly(n)
+	var ha, hb uint64
+	for _, c := range pa {
+		ra.RollByte(c)
+	}
+	for _, c := range pb {
+		rb.RollByte(c)
+	}
+	for _, c := range s {
+		ha = ra.RollByte(c)
+		hb = rb.RollByte(c)
+	}
+	vAssert(ha == hb, "hash after >= n bytes is a function of the last n bytes only")
+	if !vThorough() {
+		return
+	}
+	// and it does depend on them: a different last byte gives a different hash for this table
+	t := vNondetU8("t")
+	vAssume(t != s[n-1])
+	rc := hash.NewCyclicPoly(n)
+	var hc uint64
+	for i, c := range s {
+		if i == n-1 {
+			c = t
+		}
+		hc = rc.RollByte(c)
+	}
+	vAssert(hc != ha, "changing the last byte changes the hash (table entries are pairwise distinct)")
+}
